@@ -29,9 +29,12 @@ def profile_fn(kind, width):
                 voigt=lambda: f_profiles.voigt_f_profile(width, width))[kind]()
 
 
-def job(T, Fc, asc, kind, smear, geom, tier, dsign):
-    """dsign: -1 / 0 / +1 restricts the drift sign (splits the work)"""
+def job(T, Fc, asc, kind, smear, geom, tier, dsign, dfsign=1):
+    """dsign: -1 / 0 / +1 restricts the drift sign (splits the work)
+    dfsign=-1: the frame is constructed with a NEGATIVE df (filterbank style; accepted and stored as |df|)"""
     g = inject.GEOMS[geom]
+    if dfsign < 0:
+        g = dict(g, df_arg=-g['df'])
     df, dt, fch1 = g['df'], g['dt'], g['fch1']
     unit = df / dt
     f0, d, lvl, w = (Sym(z3.Real(n)) for n in ('f_start', 'drift', 'level', 'width'))
@@ -48,7 +51,7 @@ def job(T, Fc, asc, kind, smear, geom, tier, dsign):
     recs = []
 
     def run():
-        fr = make_frame(T, Fc, asc, Sym(RV(df)), Sym(RV(dt)), Sym(RV(fch1)))
+        fr = make_frame(T, Fc, asc, Sym(RV(dfsign * df)), Sym(RV(dt)), Sym(RV(fch1)))
         # the helper's frame has been part of a cadence before: its time axis was shifted, read (also the extended
         # axis, as a smeared injection does) and put back -- none of which may leave a trace
         saved_ts = fr.ts
@@ -56,8 +59,9 @@ def job(T, Fc, asc, kind, smear, geom, tier, dsign):
         _ = (fr.ts_ext, fr.t_stop, fr.obs_length)
         fr.ts = saved_ts
         h = fr.add_constant_signal(f0, d, lvl, w, f_profile_type=kind, doppler_smearing=smear)
-        fr2 = make_frame(T, Fc, asc, Sym(RV(df)), Sym(RV(dt)), Sym(RV(fch1)))
-        n = core.smax(1, core.ceil(abs(d) / fr2.unit_drift_rate))
+        fr2 = make_frame(T, Fc, asc, Sym(RV(dfsign * df)), Sym(RV(dt)), Sym(RV(fch1)))
+        # sub-step count from the geometry itself (|df| / dt), not from an attribute of the frame under test
+        n = core.smax(1, core.ceil(abs(d) / RV(unit)))
         gsig = fr2.add_signal(paths.constant_path(f0, d), t_profiles.constant_t_profile(lvl), profile_fn(kind, w),
                               bp_profiles.constant_bp_profile(level=1), doppler_smearing=smear,
                               smearing_subsamples=n)
@@ -67,7 +71,7 @@ def job(T, Fc, asc, kind, smear, geom, tier, dsign):
     with frame_patches():
         leaves = core.explore(run, pre, cap=3000)
     texp = time.time() - t0
-    tag = f"C13:{(T, Fc, asc, kind, smear, geom, dsign)}"
+    tag = f"C13:{(T, Fc, asc, kind, smear, geom, dsign)}" + (':negative-df' if dfsign < 0 else '')
     conds = []
     ncex = 0
     for li, leaf in enumerate(leaves):
@@ -135,14 +139,14 @@ def job(T, Fc, asc, kind, smear, geom, tier, dsign):
 
 def payload(m, T, Fc, asc, kind, smear, g, f0, d, lvl, w):
     mf = lambda t: core.model_float(m, t)
-    return dict(fn='const', T=T, Fc=Fc, asc=asc, kind=kind, smear=smear, df=g['df'], dt=g['dt'], fch1=g['fch1'],
+    return dict(fn='const', T=T, Fc=Fc, asc=asc, kind=kind, smear=smear, df=g.get('df_arg', g['df']), dt=g['dt'], fch1=g['fch1'],
                 f_start=mf(f0), drift=mf(d), level=mf(lvl), width=mf(w))
 
 
 def classify(p):
-    unit = p['df'] / p['dt']
+    unit = abs(p['df']) / p['dt']
     sgn = 'neg' if p['drift'] < 0 else ('zero' if p['drift'] == 0 else 'pos')
-    narrow = 'narrow' if 2 * p['width'] / p['df'] < 1 else 'wide'
+    narrow = 'narrow' if 2 * p['width'] / abs(p['df']) < 1 else 'wide'
     return f"C13:{'smear' if p['smear'] else 'plain'}:{sgn}:{narrow}:{p['kind'] if p['kind'] in COMPACT else 'tailed'}"
 
 
@@ -159,7 +163,7 @@ def replay_const(p):
         h = fr.add_constant_signal(p['f_start'], p['drift'], p['level'], p['width'], f_profile_type=p['kind'], doppler_smearing=p['smear'])
     except Exception as e:
         return True, f"add_constant_signal raised {type(e).__name__}: {e}"
-    n = max(1, int(np.ceil(abs(p['drift']) / fr2.unit_drift_rate)))
+    n = max(1, int(np.ceil(abs(p['drift']) / (abs(p['df']) / p['dt']))))
     prof = dict(box=lambda: stg.box_f_profile(p['width']), sinc2=lambda: stg.sinc2_f_profile(p['width']),
                 gaussian=lambda: stg.gaussian_f_profile(p['width']), lorentzian=lambda: stg.lorentzian_f_profile(p['width']),
                 voigt=lambda: stg.voigt_f_profile(p['width'], p['width']))[p['kind']]()
@@ -374,6 +378,10 @@ def main():
                     for smear in (False, True):
                         for dsign in (-1, 0, 1):
                             jobs.append(('job', (T, Fc, asc, kind, smear, geom, ck.tier, dsign)))
+    # frames constructed with a negative df (stored as |df|): the unit drift rate is |df| / dt all the same
+    for kind in ('box', 'gaussian'):
+        for dsign in (-1, 1):
+            jobs.append(('job', (2, 6, False, kind, True, 'g1', ck.tier, dsign, -1)))
     if not ck.thorough:
         # a single integration: every quantity with a factor (tchans - 1) vanishes
         for kind in ('box', 'gaussian'):
